@@ -16,8 +16,9 @@ def par_tlc(ctx, jobs, timeout=1500):
     return res
 
 
-def judge_mc(ctx, res, expected_cex=()):
-    """Model-checking results: a counterexample in the design model alone is never a verdict."""
+def judge_mc(ctx, res, expected_cex=(), disabled=None):
+    """Model-checking results: a counterexample in the design model alone is never a verdict.
+    disabled: name -> actions switched off by that configuration's constants (not reported as never taken)."""
     for k, r in res.items():
         if k in expected_cex:
             continue
@@ -25,8 +26,9 @@ def judge_mc(ctx, res, expected_cex=()):
             raise vlib.Infra("design model %s: %s violated:\n%s" % (k, r.violated, (r.cex or r.raw[-3000:])[:6000]))
         ctx.states += r.distinct
         ctx.transitions += r.generated
-        if r.coverage_zero:
-            ctx.notes.append("actions never taken in %s: %s" % (k, r.coverage_zero))
+        zero = [a for a in r.coverage_zero if a not in (disabled or {}).get(k, ())]
+        if zero:
+            ctx.notes.append("actions never taken in %s: %s" % (k, zero))
         ctx.log("%s: %d distinct states, %d generated, %d TRACE lines, %.0fs" % (k, r.distinct, r.generated, len(r.traces), r.wall))
 
 
